@@ -441,6 +441,13 @@ func cmdCheck(args []string) {
 	// interleave variants so that a wall cut-off treats them equally
 	sort.SliceStable(chunks, func(i, j int) bool { return chunks[i].from < chunks[j].from })
 	deadline := time.Now().Add(time.Duration(budget) * time.Second)
+	var knownKeys []string
+	for _, f := range loadKnown().Findings {
+		if f.Property == id {
+			knownKeys = append(knownKeys, f.Class+"\x1f"+f.Key)
+		}
+	}
+	knownEnv := strings.Join(knownKeys, "\x1e")
 	a := &agg{}
 	var qmu sync.Mutex
 	next := 0
@@ -479,11 +486,14 @@ func cmdCheck(args []string) {
 				journal := filepath.Join(cdir, fmt.Sprintf("journal-%d.txt", ord))
 				env := map[string]string{"VERIF_MODE": "batch", "VERIF_PROP": id, "VERIF_TIER": *tier, "VERIF_SEED": strconv.FormatUint(seed, 10),
 					"VERIF_FROM": strconv.Itoa(c.from), "VERIF_TO": strconv.Itoa(c.to), "VERIF_OUT": out, "VERIF_JOURNAL": journal,
-					"VERIF_DEADLINE_UNIX": strconv.FormatInt(deadline.Add(30*time.Second).Unix(), 10)}
+					"VERIF_DEADLINE_UNIX": strconv.FormatInt(deadline.Add(30*time.Second).Unix(), 10), "VERIF_KNOWN": knownEnv}
 				exit, errTail := runWorker(bins[c.variant], c.variant, env, time.Duration(budget+600)*time.Second)
 				res := readResults(out)
 				for _, r := range res {
 					if c.variant != "" {
+						if r.Counters == nil {
+							r.Counters = map[string]int{}
+						}
 						r.Counters["variant:"+c.variant]++
 					}
 				}
